@@ -180,7 +180,7 @@ impl SimConnection {
                     ConnectionError::FailedToNegotiate { protocol, substream_id, error } => (protocol, substream_id, error),
                 };
                 if let (Some(protocol), Some(substream_id)) = (protocol, substream_id) {
-                    self.protocol_set.report_substream_open_failure(protocol, substream_id, error).await?;
+                    let _ = self.protocol_set.report_substream_open_failure(protocol, substream_id, error).await;
                 }
             }
             Ok(substream) => {
@@ -196,7 +196,7 @@ impl SimConnection {
                     self.protocol_set.protocol_codec(&protocol),
                     lifetime_permit,
                 );
-                self.protocol_set.report_substream_open(self.peer, protocol, direction, substream, opening_permit).await?;
+                let _ = self.protocol_set.report_substream_open(self.peer, protocol, direction, substream, opening_permit).await;
             }
         }
         Ok(())
